@@ -3,6 +3,7 @@ namespace Nix
 inductive Err where
   | indexError | outOfBounds | valueError | typeError | duplicateName | keyError
   | runtimeError | invalidUnit | incompatibleDimensions | invalidFile | attributeError
+  | overflowError
   deriving DecidableEq, Repr, Inhabited
 
 def Err.toString : Err → String
@@ -11,5 +12,6 @@ def Err.toString : Err → String
   | .runtimeError => "RuntimeError" | .invalidUnit => "InvalidUnit"
   | .incompatibleDimensions => "IncompatibleDimensions" | .invalidFile => "InvalidFile"
   | .attributeError => "AttributeError"
+  | .overflowError => "OverflowError"
 instance : ToString Err := ⟨Err.toString⟩
 end Nix
